@@ -34,8 +34,6 @@ Definition mk_fl (m e : Z) : option fl :=
               if (Zpos q <? two53) && (-1000 <? e') && (e' <? 900) then Some (FFin (Zneg q) e') else None
   end.
 
-Definition fl_of_int (z : Z) : option fl := mk_fl z 0.
-
 Definition fl_neg (x : fl) : fl :=
   match x with
   | FNaN => FNaN
@@ -145,8 +143,10 @@ Fixpoint frac_digits (fuel : nat) (num den : Z) : bstr :=
    when dp - 1 < -4 or dp - 1 >= 6, otherwise plain positional notation.
    (The exponent threshold is 6, not JavaScript's 21: 1000000.0 prints as 1e+06.)
 
-   Not verified in Coq: the harness of C01 compares this function with the real strconv on
-   systematic and random float64 values on every run. *)
+   Proved in Coq (Proofs/FloatRt*.v): the function answers on every float of the window, and
+   NumLit.parse_float_round -- the correctly rounded reader -- reads the text back as the same float
+   (fl_to_string_total, fl_to_string_parse).  That the text is strconv's is not proved: the harness of
+   C01 compares this function with the real strconv on systematic and random float64 values on every run. *)
 Definition pow10 (k : Z) : Z := 10 ^ k.
 
 (* c * 10^(-p)  compared with  n / d   (d > 0) *)
@@ -269,8 +269,10 @@ Definition fl_to_string (x : fl) : option bstr :=
    built-in functions use; the arithmetic OPERATORS of the expression language use these.
    [None] now only means: NaN or an infinity among the operands, or a result outside the
    exponent range of [mk_fl] (overflow / the subnormal range).
-   Not verified against IEEE 754 in Coq; the correspondence runs of C01/C02/C04 compare the
-   extracted functions with the hardware arithmetic of Go (and of node for C04). *)
+   Proved (Proofs/FloatRoundSpec.v, FloatFlocq.v, FloatFlocqDiv.v): round53 returns the nearest multiple of
+   the last place kept, ties to even, and each of the four results (and fl_of_int's) is Flocq's
+   round radix2 (FLX_exp 53) ZnearestE of the exact result.  The correspondence runs of C01/C02/C04 still
+   compare the extracted functions with the hardware arithmetic of Go (and of node for C04). *)
 
 (* the value with at most 53 significant bits nearest to M * 2^E, ties to even *)
 Definition round53 (M E : Z) : Z * Z :=
@@ -290,6 +292,10 @@ Definition round53 (M E : Z) : Z * Z :=
     (if M <? 0 then - hi' else hi', E + shift).
 
 Definition mk_fl_r (M E : Z) : option fl := let '(m, e) := round53 M E in mk_fl m e.
+
+(* float64(z) of an integer: the nearest float64, ties to even (exact up to 2^53; Go's conversion and
+   JavaScript's number of a larger integer round the same way), so every int64 has a float *)
+Definition fl_of_int (z : Z) : option fl := mk_fl_r z 0.
 
 Definition fl_add_r (x y : fl) : option fl :=
   match x, y with
@@ -344,4 +350,12 @@ Definition fl_to_string_dom (x : fl) : option bstr :=
         if ip <? 1000000 then
           Some (sign ++ dec_of_Z ip ++ [46]%N ++ frac_digits 12 (a mod den) den)
         else None
+  end.
+
+(* a finite float in the normal form every operation above returns (mk_fl): a signed zero, or an odd mantissa *)
+Definition fl_finite_norm (x : fl) : Prop :=
+  match x with
+  | FZero _ => True
+  | FFin m _ => Z.odd m = true
+  | _ => False
   end.
